@@ -717,32 +717,45 @@ Qed.
 Lemma savers_have_rows : forall s, row_of s <> None.
 Proof. destruct s; vm_compute; discriminate. Qed.
 
-(* "the only doors": every call of Run.SaveResult / Results.Save under flows/ is in a method of baseAction
-   (flows/actions/base.go), of baseRouter (flows/routers/base.go), or is run.SaveResult itself — the two helpers the
-   rows of the table are computed from (translator: reachability of saveResult / of SaveResult from Route and
-   RouteTimeout), not some third place the table would not see *)
-Definition site_known (s : string) : bool :=
-  prefix "flows/actions/base.go:baseAction." s
-  || prefix "flows/routers/base.go:baseRouter." s
-  || String.eqb s "flows/runs/run.go:run.SaveResult:Save".
+(* "the only doors" (go/types census over the whole module): every use of Run.SaveResult / Results.Save and every
+   index assignment on a flows.Results is inside the Results type itself, in run.SaveResult, or in a function of
+   flows/actions / flows/routers that is statically reached from the Execute / Route / RouteTimeout of a
+   registered type (and therefore accounted for in that type's row, see rows_complete) *)
+Definition site_known (sc : string * string) : bool :=
+  let c := snd sc in
+  String.eqb c "action-sink" || String.eqb c "router-sink" || String.eqb c "run.SaveResult" || prefix "Results." c.
 
-Lemma save_sites_known : save_result_sites <> [] /\ forall s, In s save_result_sites -> site_known s = true.
+Lemma save_sites_known : save_result_sites <> [] /\ forall sc, In sc save_result_sites -> site_known sc = true.
 Proof.
   split; [vm_compute; discriminate|].
   assert (H : forallb site_known save_result_sites = true) by (vm_compute; reflexivity).
   intros s Hs. rewrite forallb_forall in H. apply H. exact Hs.
 Qed.
 
-(* Inspect.sv_guarded (hand-written: which savers save only when result_name is non-empty) agrees with the guards
-   the translator found around the saving calls *)
-Definition mentions (pat s : string) : bool := match index 0 pat s with Some _ => true | None => false end.
+(* completeness of the table: for every registered type the syntactic extraction (names, categories, guards) visited
+   exactly the uses of door-containing functions and the doors that go/types finds statically reachable from its
+   Execute / Route / RouteTimeout — a save through a helper function, a method of a member, a method value or a
+   second sink makes the two lists differ *)
+Lemma rows_complete : forall r, In r action_results -> row_complete r = true.
+Proof.
+  assert (H : forallb row_complete action_results = true) by (vm_compute; reflexivity).
+  intros r Hr. rewrite forallb_forall in H. apply H. exact Hr.
+Qed.
 
+(* Inspect.sv_guarded (hand-written: which savers save only when result_name is non-empty) and the guard of the
+   declaration that Inspect.action_result_infos hard-codes (result_name non-empty) are what the source says *)
 Definition guarded_in_table (s : saver) : bool :=
   match row_of s with
   | Some r => negb (match ar_save_guards r with [] => true | _ => false end)
-              && forallb (mentions "a.ResultName != """"") (ar_save_guards r)
+              && forallb (str_in "NAME_NONEMPTY") (ar_save_guards r)
   | None => false
   end.
 
 Lemma sv_guarded_table : forall s, sv_guarded s = guarded_in_table s.
 Proof. destruct s; vm_compute; reflexivity. Qed.
+
+Definition decl_guard_in_table (s : saver) : list (list string) :=
+  match row_of s with Some r => ar_decl_guards r | None => [] end.
+
+Lemma decl_guard_table : forall s, sv_declares s = true -> decl_guard_in_table s = [["NAME_NONEMPTY"]]%string.
+Proof. destruct s; vm_compute; intro H; try reflexivity; discriminate. Qed.
